@@ -477,6 +477,11 @@ func genZone(rng *mrand.Rand, in input) *dohfake.Zone {
 			}
 		}
 	}
+	// the order of the records inside the answer section carries no meaning: every third universe serves them in
+	// another order than "CNAME chain first"
+	if rng.IntN(3) == 0 {
+		z.Order = 1 + rng.IntN(3)
+	}
 	return z
 }
 
@@ -627,7 +632,7 @@ func dumpZone(z *dohfake.Zone) []string {
 		}
 	}
 	sort.Strings(out)
-	return append(out, fmt.Sprintf("nx-unknown=%v compress=%v", z.NXUnknown, z.Compress))
+	return append(out, fmt.Sprintf("nx-unknown=%v compress=%v answer-order=%d", z.NXUnknown, z.Compress, z.Order))
 }
 
 var rcodeErr = map[int]error{1: ech.ErrFormatError, 2: ech.ErrServerFailure, 3: ech.ErrNonExistentDomain, 4: ech.ErrNotImplemented, 5: ech.ErrQueryRefused}
@@ -801,6 +806,9 @@ func TestCheck(t *testing.T) {
 		for _, q := range qlog {
 			if q.Poisoned {
 				poisonedServed++
+			}
+			if q.Unordered {
+				r.Count("answers_with_cname_after_its_target", 1)
 			}
 			if !q.Legal || !q.Parsed {
 				malformed = true
@@ -1157,6 +1165,7 @@ func TestCheck(t *testing.T) {
 	r.Floor("empty_label_forms", int64(len(empties)))
 	r.Floor("queries", int64(n)*2)
 	r.Floor("cases_with_resolver_history", int64(n)/6)
+	r.Floor("answers_with_cname_after_its_target", int64(n)/100)
 	r.Floor("alias_hops_followed", int64(n)/10)
 	r.Floor("loops_generated", int64(n)/100)
 	r.Floor("cname_cases", int64(n)/30)
